@@ -45,8 +45,13 @@ def be32 (b : Bytes) : Nat :=
 def putBe32 (n : Nat) : Bytes :=
   [UInt8.ofNat (n / 16777216 % 256), UInt8.ofNat (n / 65536 % 256), UInt8.ofNat (n / 256 % 256), UInt8.ofNat (n % 256)]
 
+/-- Go's `uint32(n)` of a non-negative `int` (64-bit): truncation modulo 2^32. Used where the code
+writes `uint32(a.buffer.Len())` and `uint32(len(data))`. -/
+def u32 (n : Nat) : Nat := n % 4294967296
+
 /-- Per-direction `adapter` fields that the data interpreter reads and writes.
-`reading = true` is `state == readingMessageData`. -/
+`reading = true` is `state == readingMessageData`. `length` is the Go `uint32` field: every value
+the loop stores in it is a `be32`, hence `< 2^32` (`be32_lt`). -/
 structure Adapter where
   enc : Enc := .identity
   buf : Bytes := []
@@ -96,7 +101,9 @@ Well-founded on `2·|buffer| + [state = readingMessageData]`: the Go loop termin
 def loop (cd : Codec) (es : Bool) (a : Adapter) : Res :=
   if a.reading then
     -- case readingMessageData
-    if a.buf.length < a.length then ⟨[], some a⟩
+    -- `if uint32(a.buffer.Len()) < a.length { return nil }`: the buffer length is truncated to 32 bits
+    -- before the comparison (a buffer of 2^32 + k bytes is compared as k bytes)
+    if u32 a.buf.length < a.length then ⟨[], some a⟩
     else
       match decode cd a.enc a.compressed (a.buf.take a.length) with
       | none => ⟨[], none⟩
@@ -181,6 +188,14 @@ def expCalls : List GMsg → Bool → List Call
 /-- what the emitter makes of a message: same flag, same message, payload recompressed -/
 def GMsg.reenc (cd : Codec) (e : Enc) (m : GMsg) : GMsg :=
   ⟨m.compressed, encode cd e m.compressed m.plain, m.plain⟩
+
+/-- a new adapter of a gRPC stream whose header block selected encoding `e` -/
+def fresh (e : Enc) : Adapter := { enc := e }
+
+/-- Stream bytes received and not yet delivered as whole messages: the buffer, plus the 5-byte
+prefix of the message being read (already taken out of the buffer). The theorems hold while this
+stays below 2^32 + 5, i.e. while `uint32(a.buffer.Len())` is the buffer length at every comparison. -/
+def Adapter.pending (a : Adapter) : Nat := a.buf.length + (if a.reading then 5 else 0)
 
 /-- an adapter between messages with an empty buffer (in particular a new one) -/
 def Adapter.atRest (a : Adapter) : Prop := a.reading = false ∧ a.buf = []
